@@ -70,6 +70,9 @@ def run(ctx):
     if ctx.thorough:
         groups["5way_y"] = gen(ctx, "MC_Tree_5way_y", timeout=1500)
     groups["sim"] = gen(ctx, "MC_Tree_sim", simulate="num=%d" % ctx.q(60, 400), timeout=900)
+    # 5-way merges with slot files AND directories at d: directory terms (and padded absent terms) cancel and
+    # leave files that must be content-merged
+    groups["sim_dfile"] = gen(ctx, "MC_Tree_sim2", simulate="num=%d" % ctx.q(150, 1000), timeout=900)
     lap("generated")
     # negative configs: the contract clauses can fail, and the known finding exists at design level
     negs = [("finding", "InvContract"), ("flag", "InvContract"), ("side", "InvContract"),
